@@ -1791,6 +1791,9 @@ class Item:
         if not mo:
             raise Undecided("R3 for-%s: header not recognised" % what)
         pat, recv = mo.group(1).strip(), mo.group(2).strip()
+        if "borrow" in (getattr(self, "r3_extra", None) or []) and not recv.startswith("&"):
+            # 4th argument `borrow`: RECV is an owned place (`self.field`), the shims take a reference
+            recv = "&" + recv
         sfx = "" if k == 1 else str(k)
         iv, kv = "vx_i" + sfx, "vx_keys" + sfx
         inner = [x for x in ls if bopen < x[1] < bclose]
@@ -1807,6 +1810,30 @@ class Item:
                 continue
             self.rewrite(cpos, cpos + len("continue"), "{ %s = %s + 1; continue }" % (iv, iv), "R3-for-%s" % what)
         self.rewrite(bclose, bclose, "/*@tail*/  %s = %s + 1;\n    " % (iv, iv), "R3-for-%s" % what)
+
+    def r3_try_for_each_values_expr(self, fn, k):
+        """tail expression `RECV.values().try_for_each(|P| BODY)` over a HashMap<String, V> (BODY: Result<(), E> without `return` / `?`)
+        ==>  the definition of Iterator::try_for_each: run BODY on every value, hand back the FIRST error, Ok(()) when there is none:
+        { let vx_keys = vx_map_keys(RECV); let mut vx_i = 0; while vx_i < vx_keys.len() { let P = vx_map_index(RECV, vx_keys[vx_i]);
+          let vx_e = BODY; match vx_e { Ok(_) => {} Err(vx_err) => { return Err(vx_err); } } vx_i += 1; } Ok(()) }        (BODY stays in place)"""
+        k0, _, bo, end, _ = self.fn_span(fn)
+        hits = list(re.finditer(r"\.\s*values\s*\(\s*\)\s*\.\s*try_for_each\s*\(", self.m[bo:end]))
+        if len(hits) < k:
+            raise Undecided("LOST-ANCHOR: R3 try-for-each-values-expr #%d in fn %s of %s" % (k, fn, self.where()))
+        h = hits[k - 1]
+        par = bo + h.end() - 1
+        p, bs, be, close = self._closure_after(par)
+        if re.search(r"\breturn\b|\?", self.m[bs:be]):
+            raise Undecided("R3 try-for-each-values-expr: the closure body leaves early (return / ?)")
+        if self.m[close + 1:end - 1].strip():
+            raise Undecided("R3 try-for-each-values-expr: not the tail expression of fn %s" % fn)
+        s0 = self._stmt_start(bo + h.start())
+        recv = self.text[s0:bo + h.start()].strip()
+        if not re.match(r"&?[A-Za-z_][A-Za-z0-9_.]*$", recv):
+            raise Undecided("R3 try-for-each-values-expr: receiver is not a place expression at %s:%d" % (self.relpath, self.line_of(s0)))
+        r_ = recv if recv.startswith("&") else "&" + recv
+        self.rewrite(s0, bs, "{ let vx_keys = vx_map_keys(%s);/*@pre*/\n    let mut vx_i: usize = 0;\n    while vx_i < vx_keys.len()\n    /*@loop*/\n    {\n      let %s = vx_map_index(%s, vx_keys[vx_i]);/*@body*/\n      let vx_e = " % (r_, p, r_), "R3-try-for-each-values")
+        self.rewrite(be, close + 1, ";\n      match vx_e { Ok(_) => {} Err(vx_err) => { return Err(vx_err); } }/*@tail*/\n      vx_i = vx_i + 1;\n    }\n    Ok(()) }", "R3-try-for-each-values")
 
     def r3_for_values(self, fn, k):
         self._r3_map_iter(fn, k, "values")
